@@ -109,9 +109,6 @@ func (rndb *RangeNamespaceDataBlock) Populate(ctx context.Context, eds eds.Acces
 
 func (rndb *RangeNamespaceDataBlock) UnmarshalFn(root *share.AxisRoots) UnmarshalFn {
 	return func(cntrData, idData []byte) error {
-		if !rndb.Container.IsEmpty() {
-			return nil
-		}
 		rndid, err := shwap.RangeNamespaceDataIDV0FromBinary(idData)
 		if err != nil {
 			return fmt.Errorf("unmarhaling RangeNamespaceDataIDV0: %w", err)
